@@ -124,7 +124,7 @@ def gen_esc(tier, rng):
             for k in ESC_KINDS:
                 cases.append("(esc %s %s)" % (k, hexs("".join(t))))
     # one length further: sampled
-    frac = 0.12 if tier == "quick" else 0.10
+    frac = 0.12 if tier == "quick" else 0.35
     for t in itertools.product(ALPHA, repeat=full + 1):
         if rng.random() < frac:
             k = rng.choice(ESC_KINDS)
@@ -132,7 +132,7 @@ def gen_esc(tier, rng):
     for t in HAND:
         for k in ESC_KINDS:
             cases.append("(esc %s %s)" % (k, hexs(t)))
-    n = 2000 if tier == "quick" else 30000
+    n = 2000 if tier == "quick" else 40000
     for _ in range(n):
         L = rng.choice([4, 5, 6, 8, 13, 21, 40])
         t = "".join(rng.choice(ALPHA) for _ in range(L))
@@ -492,7 +492,7 @@ class TreeGen:
 def gen_script(tier, rng):
     dist = {}
     cases = []
-    n = 150 if tier == "quick" else 1200
+    n = 150 if tier == "quick" else 3000
     g = TreeGen(rng, dist)
     # directed: one slot at a time, every hand-written text, small tree
     for t in HAND if tier != "quick" else HAND[::3]:
